@@ -17,6 +17,36 @@ pub struct Case {
     pub base: OntCase,
     /// 0: keep both roots, 1: drop HP:0000001, 2: drop HP:0000118, 3: drop both
     pub drop_roots: u8,
+    /// 0: built with defaults by the path itself. Otherwise the facts go through the Builder
+    /// (`build_minimal`) and the public setters are called on the result: 1 categories then
+    /// modifier, 2 modifier then categories, 3 categories only, 4 categories, modifier, categories,
+    /// 5 modifier only
+    #[serde(default)]
+    pub setters: u8,
+}
+
+/// `build_minimal` followed by the public default setters in the order selected by `sel`.
+fn build_with_setters(f: &Facts, sel: u8) -> Result<hpo::Ontology, String> {
+    let mut o = via_builder(f, Finish::Minimal)?;
+    guarded(|| -> Result<(), String> {
+        let order: &[u8] = match sel {
+            1 => &[0, 1],
+            2 => &[1, 0],
+            3 => &[0],
+            4 => &[0, 1, 0],
+            _ => &[1],
+        };
+        for step in order {
+            if *step == 0 {
+                o.set_default_categories().map_err(|e| format!("set_default_categories: {e}"))?;
+            } else {
+                o.set_default_modifier().map_err(|e| format!("set_default_modifier: {e}"))?;
+            }
+        }
+        Ok(())
+    })
+    .map_err(|p| format!("PANIC in the default setters: {p}"))??;
+    Ok(o)
 }
 
 fn drop_term(f: &mut Facts, id: u32) {
@@ -51,8 +81,61 @@ pub fn check(c: &Case, stats: &mut Stats) -> CheckResult {
         let f2 = oc.facts.clone();
         oc.facts.ann_calls.retain(|c| c.term.is_some() && f2.recs[c.kind as usize].iter().any(|r| r.id == c.rec));
     }
-    let pn = oc.path.name();
+    if c.setters != 0 {
+        oc.path = PathSel::Builder;
+    }
+    let pn = if c.setters != 0 { format!("setters-{}", c.setters) } else { oc.path.name() };
     stats.eval(1);
+    if c.setters != 0 {
+        stats.label("public-setters-after-build_minimal");
+        let exp = expected_facts(&oc.facts, PathSel::Builder);
+        let built = build_with_setters(&oc.facts, c.setters);
+        if c.drop_roots != 0 {
+            stats.label("missing-root");
+            // set_default_modifier needs HP:0000001 only
+            let must_fail = c.drop_roots & 1 != 0 || c.setters != 5;
+            return match built {
+                Err(e) if e.starts_with("PANIC") => fail(format!("missing-root/panic/{pn}"), format!("default setters without a root term panic instead of returning an error: {e}")),
+                Err(_) => {
+                    stats.nontrivial(oc.facts.canonical_hash() ^ u64::from(c.drop_roots) ^ (u64::from(c.setters) << 8));
+                    Ok(())
+                }
+                Ok(_) if must_fail => fail(format!("missing-root/accepted/{pn}"), "the default setters succeed although a root term is missing".to_string()),
+                Ok(_) => Ok(()),
+            };
+        }
+        let ont = match built {
+            Ok(o) => o,
+            Err(e) => return fail(format!("construct/{pn}"), e),
+        };
+        let model = Model::new(&exp);
+        let snap = guarded(|| observe(&ont)).map_err(|p| Failure { signature: format!("observe-panic/{pn}"), message: p })?;
+        let e = Expect { model: &model, defaults: true, term_name: &ident, rec_name: &ident_rec };
+        let diffs: Vec<Diff> = diff_model(&snap, &e, &[Group::Cats])
+            .into_iter()
+            // with only one of the two setters called, only what that setter defines is compared
+            .filter(|d| match c.setters {
+                3 => d.what.contains("categories"),
+                5 => d.what.contains("modifier"),
+                _ => true,
+            })
+            .collect();
+        if let Some(d) = diffs.first() {
+            let all: Vec<String> = diffs.iter().take(6).map(|d| d.what.clone()).collect();
+            let kind: String = d.what.split(' ').next().unwrap_or("").chars().take(24).collect();
+            return fail(format!("classification/{pn}/{kind}"), format!("{} difference(s) to the reference model: {}", diffs.len(), all.join(" | ")));
+        }
+        let mods = model.default_modifier().unwrap_or_default();
+        let cats = model.default_categories().unwrap_or_default();
+        if !mods.is_empty() && model.ids.iter().any(|id| model.categories_with(*id, &cats).len() >= 2) {
+            let mut h = Fnv::new();
+            h.u64(exp.canonical_hash());
+            h.bytes(pn.as_bytes());
+            stats.nontrivial(h.finish());
+        }
+        return Ok(());
+    }
+    let pn = oc.path.name();
     if c.drop_roots != 0 {
         // building with defaults must fail with an error
         stats.label("missing-root");
@@ -132,8 +215,9 @@ fn strategy(tier: Tier) -> BoxedStrategy<Case> {
         ],
         noise_strategy(),
         prop_oneof![8 => Just(0u8), 1 => Just(1u8), 1 => Just(2u8), 1 => Just(3u8)],
+        prop_oneof![5 => Just(0u8), 2 => 1u8..=5],
     )
-        .prop_map(|(facts, path, noise, drop_roots)| Case { base: OntCase { facts, path, noise }, drop_roots })
+        .prop_map(|(facts, path, noise, drop_roots, setters)| Case { base: OntCase { facts, path, noise }, drop_roots, setters })
         .boxed()
 }
 
@@ -142,7 +226,7 @@ impl Property for C19 {
         "C19"
     }
     fn rule(&self) -> String {
-        "Generated: ontologies containing HP:0000001 and HP:0000118 with 0-5 further top-level branches, HP:0000118 usually (not always) below HP:0000001, childless top-level terms, terms below several categories and below both a modifier and a phenotype branch, detached terms; built with defaults through the Builder, own v1/v2/v3 bytes, as_bytes round trip and JAX files; variants with one or both root terms removed. Oracle: modifier() = children(HP:1) without HP:118; categories() = that plus children(HP:118), ascending; per term is_modifier <=> the term or an ancestor is a modifier root; categories() = category terms among the term and its ancestors in ascending id order; building fails with an error (not a panic, not an ontology) iff a root term is missing. evaluations = ontologies classified. Non-trivial = some term lies in >=2 categories, there is >=1 modifier root and HP:118 has children (or: a missing-root variant); distinct = hash(facts, path).".into()
+        "Generated: ontologies containing HP:0000001 and HP:0000118 with 0-5 further top-level branches, HP:0000118 usually (not always) below HP:0000001, childless top-level terms, terms below several categories and below both a modifier and a phenotype branch, detached terms; built with defaults through the Builder, own v1/v2/v3 bytes, as_bytes round trip and JAX files, or built minimally and classified by the public setters set_default_categories / set_default_modifier called in either order, alone or repeatedly; variants with one or both root terms removed. Oracle: modifier() = children(HP:1) without HP:118; categories() = that plus children(HP:118), ascending; per term is_modifier <=> the term or an ancestor is a modifier root; categories() = category terms among the term and its ancestors in ascending id order; building fails with an error (not a panic, not an ontology) iff a root term is missing. evaluations = ontologies classified. Non-trivial = some term lies in >=2 categories, there is >=1 modifier root and HP:118 has children (or: a missing-root variant); distinct = hash(facts, path).".into()
     }
     fn assumptions(&self) -> Vec<String> {
         vec!["classification is defined on the facts: ancestors by BFS closure, roots by the documented rule of set_default_categories / set_default_modifier".into()]
@@ -154,7 +238,7 @@ impl Property for C19 {
         }
     }
     fn required_labels(&self, _tier: Tier) -> Vec<&'static str> {
-        vec!["nontrivial", "categories>30", "missing-root", "term-below-modifier-and-phenotype-branch", "term-in-several-categories", "118-not-below-1", "118-without-children", "childless-top-level-term"]
+        vec!["nontrivial", "categories>30", "missing-root", "term-below-modifier-and-phenotype-branch", "term-in-several-categories", "118-not-below-1", "118-without-children", "childless-top-level-term", "public-setters-after-build_minimal"]
     }
     fn run_generated(&self, tier: Tier, seed: u64, n: u64, stats: &mut Stats) -> Option<(Value, Failure)> {
         run_typed(strategy(tier), seed, n, stats, check)
